@@ -7,6 +7,11 @@ R17.4 Jacobians positive (Grid always; Grid3Scales as a sum of non-negative term
 R17.5 cache coherence: every public mutator of a map parameter re-caches on all paths; nobody else writes
 R17.6 rescale == construct: attributes depending on a rescaled constructor argument are re-assigned
 R17.7 a subclass overriding decompactify overrides the inverse compactify
+
+Recognition is by role, not by spelling: the maps are compared as terms (terms.Extractor); their arguments are addressed by
+position; the caching method is the method that stores all six cached arrays; what the constructor stores / asserts is read off
+the constructor's term environment with private helpers inlined (their parameter names do not matter); the root function of the
+numerical inverse is evaluated as a closure (a helper wrapping self.decompactify(chi, ., .)[0] is looked through).
 """
 from __future__ import annotations
 
@@ -14,9 +19,10 @@ import ast
 
 import sympy as sp
 
-from ..core import AnchorMissing, Check, Undecided, attr_stores, calls_in, dotted, own_nodes, src
+from ..core import AnchorMissing, Check, Undecided, attr_stores, calls_in, dotted, kwarg, own_nodes, src
 from ..flow import CFG
-from ..terms import Extractor, is_zero
+from ..nf import Ctx
+from ..terms import Closure, Extractor, is_zero
 
 LEVEL = "proof"
 GRIDS = ("grid:Grid", "grid3Scales:Grid3Scales")
@@ -35,6 +41,37 @@ def _self_reads(fnode: ast.AST) -> set[str]:
     return out
 
 
+def _map_args(fi, k: int = 3) -> list[str]:
+    """names of the first k parameters after self of a coordinate map (addressed by position)"""
+    p = [a for a in fi.params() if a not in ("self", "cls")]
+    if len(p) < k:
+        raise AnchorMissing(f"{fi.name}: expected {k} coordinate arguments")
+    return p[:k]
+
+
+def _aligned(ex: Extractor, j, fj, fd):
+    """Jacobian terms with the parameters of fj renamed (by position) to those of fd"""
+    ren = {ex.sym(a): ex.sym(b) for a, b in zip(_map_args(fj), _map_args(fd)) if a != b}
+    return tuple(t.xreplace(ren) if isinstance(t, sp.Basic) else t for t in j) if ren and isinstance(j, tuple) else j
+
+
+def _cache_method(S, g: str):
+    """the method (in the MRO of g) that stores all six cached arrays: the re-caching method, whatever it is called"""
+    for ci in S.mro(g):
+        for fi in ci.methods.values():
+            if CACHED <= {a for a, _ in attr_stores(fi.node)}:
+                return fi
+    raise AnchorMissing(f"{g}: no method stores all of {sorted(CACHED)}")
+
+
+def _canonical(ex: Extractor, fi, value, names):
+    """value of a coordinate map with its parameters renamed (by position) to the canonical names"""
+    ren = {ex.sym(a): ex.sym(b) for a, b in zip(_map_args(fi, len(names)), names) if a != b}
+    if not ren:
+        return value
+    return tuple(t.xreplace(ren) if isinstance(t, sp.Basic) else t for t in value) if isinstance(value, tuple) else value
+
+
 def jacobian_identity(chk: Check, rule: str, grid: str = "grid3Scales:Grid3Scales", directions=(0,)) -> None:
     """Jacobian == derivative of the map, reusable by the properties that integrate with this Jacobian (C09, C13)."""
     S = chk.src
@@ -45,8 +82,9 @@ def jacobian_identity(chk: Check, rule: str, grid: str = "grid3Scales:Grid3Scale
         raise AnchorMissing(f"{grid}: decompactify / compactificationDerivatives not found")
     chk.touch(fd.name, fj.name)
     d, j = ex.single(fd), ex.single(fj)
+    j = _aligned(ex, j, fj, fd)
     for i in directions:
-        x = ex.sym(DIRS[i])
+        x = ex.sym(_map_args(fd)[i])
         ok, how = is_zero(sp.diff(d[i], x) - j[i], chk.seed, budget_s=60, allow_numeric=(chk.tier == "quick"))
         chk.ob(rule, fj.where(), f"{grid.split(':')[1]}: Jacobian[{i}] == d decompactify[{i}] / d {DIRS[i]} (the quadrature weight is the derivative of the map "
                "that produced the grid points)", ok, how, key=f"jac|{grid}|{i}", how=how)
@@ -71,6 +109,7 @@ def cache_coherence(chk: Check, rule: str = "R17.5") -> None:
     for g in GRIDS:
         ci = S.cls(g)
         mro = S.mro(g)
+        cachefn = _cache_method(S, g)
         meths: dict[str, object] = {}
         for c2 in reversed(mro):
             meths.update(c2.methods)
@@ -109,7 +148,7 @@ def cache_coherence(chk: Check, rule: str = "R17.5") -> None:
             if fi.name in caches_memo:
                 return caches_memo[fi.name]
             caches_memo[fi.name] = False
-            if fi.qual.endswith("._cacheCoordinates"):
+            if fi.name == cachefn.name:
                 caches_memo[fi.name] = True
                 return True
             g_ = CFG(fi.node)
@@ -145,20 +184,20 @@ def cache_coherence(chk: Check, rule: str = "R17.5") -> None:
             w = [a for a, _ in attr_stores(fi.node) if a in CACHED]
             if w:
                 chk.ob(rule, fi.where(), f"cached coordinates/Jacobians are written only by _cacheCoordinates ({ci.name}.{name} writes {sorted(set(w))})",
-                       name == "_cacheCoordinates", key=f"cachewriter|{ci.name}.{name}")
+                       fi.name == cachefn.name, key=f"cachewriter|{ci.name}.{name}")
     # _cacheCoordinates computes all six from the current compact grids with the (dynamically dispatched) maps
-    fcache = S.func("grid:Grid._cacheCoordinates")
+    fcache = _cache_method(S, "grid:Grid")
     chk.touch(fcache.name)
-    got = {}
-    for n in own_nodes(fcache.node):
-        if isinstance(n, ast.Assign) and isinstance(n.targets[0], ast.Tuple) and isinstance(n.value, ast.Call):
-            nm = dotted(n.value.func)
-            tg = [dotted(t) for t in n.targets[0].elts]
-            ar = [dotted(a) for a in n.value.args]
-            got[nm] = (tg, ar)
-    want_args = ["self.chiValues", "self.rzValues", "self.rpValues"]
-    ok = got.get("self.decompactify") == (["self.xiValues", "self.pzValues", "self.ppValues"], want_args) and \
-        got.get("self.compactificationDerivatives") == (["self.dxidchi", "self.dpzdrz", "self.dppdrp"], want_args)
+    exc = _StarEx(S)
+    cps = [p_ for p_ in exc.paths(fcache) if p_.raised is None]
+    grids3 = [exc.sym(a) for a in ("self.chiValues", "self.rzValues", "self.rpValues")]
+    want_t = {}
+    for fn_, attrs in (("decompactify", ("xiValues", "pzValues", "ppValues")), ("compactificationDerivatives", ("dxidchi", "dpzdrz", "dppdrp"))):
+        app = sp.Function(fn_)(*grids3)
+        for k_, a_ in enumerate(attrs):
+            want_t[f"self.{a_}"] = sp.Function("getitem")(app, sp.Integer(k_))
+    got = {k_: sorted({str(p_.env.get(k_)) for p_ in cps}) for k_ in want_t}
+    ok = bool(cps) and all(p_.env.get(k_) == v_ for p_ in cps for k_, v_ in want_t.items())
     chk.ob(rule, fcache.where(), "_cacheCoordinates stores (xi,pz,pp) = self.decompactify(chi,rz,rp) and "
            "(dxidchi,dpzdrz,dppdrp) = self.compactificationDerivatives(chi,rz,rp) in matching order", ok, str(got),
            key="cache|assignments")
@@ -170,9 +209,11 @@ def cache_coherence(chk: Check, rule: str = "R17.5") -> None:
         chk.touch(fg.name)
         if want is None:
             continue
-        last = [n for n in own_nodes(fg.node) if isinstance(n, ast.Return)]
-        tup = [n for n in last if isinstance(n.value, ast.Tuple) and all(dotted(e) for e in n.value.elts)]
-        okg = any([dotted(e) for e in n.value.elts] == want for n in tup)
+        # without end points (first argument False) the getter hands out exactly the cached arrays
+        prm_ = [a for a in fg.params() if a != "self"]
+        exg = Extractor(S)
+        vals = [p_.value for p_ in exg.paths(fg, {prm_[0]: sp.false} if prm_ else {}) if p_.raised is None]
+        okg = bool(vals) and all(isinstance(v_, tuple) and [getattr(e, "name", None) for e in v_] == want for v_ in vals)
         chk.ob(rule, fg.where(), f"{getter}() returns {want} in this order", okg, key=f"getter|{getter}")
     # nobody outside the grid classes writes grid parameters or caches
     outside = []
@@ -228,8 +269,8 @@ def rules(chk: Check) -> None:
         if fd is None or fj is None:
             raise AnchorMissing(f"{g}: decompactify / compactificationDerivatives not found")
         chk.touch(fd.name, fj.name)
-        d = ex.single(fd)
-        j = ex.single(fj)
+        d = _canonical(ex, fd, ex.single(fd), DIRS)
+        j = _canonical(ex, fj, ex.single(fj), DIRS)
         if not (isinstance(d, tuple) and isinstance(j, tuple) and len(d) == 3 and len(j) == 3):
             raise Undecided(f"{g}: maps do not return 3-tuples")
         maps[g] = (d, j, fd, fj)
@@ -247,12 +288,14 @@ def rules(chk: Check) -> None:
     # ---------------- R17.2 -------------------------------------------------
     fc = S.func("grid:Grid.compactify")
     chk.touch(fc.name)
-    c = ex.single(fc)
+    args = ("z", "pz", "pp")
+    c = _canonical(ex, fc, ex.single(fc), args)
+    if not (isinstance(c, tuple) and len(c) == 3):
+        raise Undecided("Grid.compactify does not return a 3-tuple")
     d, j, fd, fj = maps["grid:Grid"]
     t = sp.Symbol("t", real=True)
     u = sp.Symbol("u", real=True)
     subs_dom = {ex.sym("zCompact"): sp.tanh(t), ex.sym("pzCompact"): sp.tanh(t), ex.sym("ppCompact"): 1 - 2 * sp.exp(-u)}
-    args = ("z", "pz", "pp")
     for i, nm in enumerate(DIRS):
         comp = c[i].subs(ex.sym(args[i]), d[i])
         res = (comp - ex.sym(nm)).subs(subs_dom)
@@ -279,15 +322,26 @@ def rules(chk: Check) -> None:
     chk.ob("R17.3", fd3.where(), "Grid3Scales: z(chi=0) == wallCenter", ok, how, key="centre|3scales", how=how)
     ok, how = is_zero(d[0].subs(ex.sym("zCompact"), 0), chk.seed)
     chk.ob("R17.3", fd.where(), "Grid: z(chi=0) == 0", ok, how, key="centre|grid", how=how)
-    fu = S.func("grid3Scales:Grid3Scales._updateParameters")
-    chk.touch(fu.name)
-    exu = Extractor(S, positive={"wallThickness", "ratioPointsWall", "smoothing", "tailLengthInside", "tailLengthOutside"})
-    ps = exu.paths(fu)
-    ps = [p for p in ps if p.raised is None]
-    if len(ps) != 1:
-        raise Undecided("_updateParameters: expected straight-line code")
-    envu = ps[0].env
-    L, r, s_, tin, tout = (exu.sym(n) for n in ("wallThickness", "ratioPointsWall", "smoothing", "tailLengthInside", "tailLengthOutside"))
+    # what the constructor stores and asserts, in terms of its own (public) arguments: private helpers are inlined, so neither their
+    # names nor their parameter names matter
+    g3 = "grid3Scales:Grid3Scales"
+    init3 = S.method(g3, "__init__")
+    cache3 = _cache_method(S, g3)
+    scales = ("wallThickness", "ratioPointsWall", "smoothing", "tailLengthInside", "tailLengthOutside")
+    missing = [q for q in scales + ("wallCenter",) if q not in init3.params()]
+    if missing:
+        raise AnchorMissing(f"Grid3Scales.__init__ has no parameter(s) {missing}")
+    exu = _AssertEx(S, positive=set(scales), inline=lambda n: n.split(":")[0] in ("grid", "grid3Scales") and n != cache3.name)
+    ps = [p for p in exu.paths(init3) if p.raised is None]
+    if not ps:
+        raise Undecided("Grid3Scales.__init__: no normal path")
+    envs = [p.env for p in ps]
+    envu = {k: v for k, v in envs[0].items() if k.startswith("self.") and all(e.get(k) == v for e in envs[1:])}
+    # the method that computes the derived parameters (for the location of the reports)
+    own = [fi_ for fi_ in S.cls(g3).methods.values() if "aIn" in {a_ for a_, _ in attr_stores(fi_.node)}]
+    fu = own[0] if own else init3
+    chk.touch(fu.name, init3.name)
+    L, r, s_, tin, tout = (exu.sym(n) for n in scales)
     direct = {"self.wallThickness": L, "self.ratioPointsWall": r, "self.smoothing": s_, "self.tailLengthInside": tin,
               "self.tailLengthOutside": tout, "self.wallCenter": exu.sym("wallCenter")}
     for k, v in direct.items():
@@ -295,7 +349,7 @@ def rules(chk: Check) -> None:
                f"found {envu.get(k)}", key=f"store|{k}")
     dIn, dOut = sp.Symbol("dIn", positive=True), sp.Symbol("dOut", positive=True)
     # the class's own asserts: tail > L (1/2 + s)/r   <=>   2 r tail = L(1+2s) + d, d > 0
-    asserted = _asserts_tail_bounds(fu)
+    asserted = _asserts_tail_bounds(exu.asserted, L, r, s_, tin, tout)
     chk.ob("R17.3", fu.where(), "_updateParameters asserts tail lengths > wallThickness*(1/2+smoothing)/ratioPointsWall, "
            "wallThickness > 0, smoothing > 0, 0 < ratioPointsWall < 1 (the assumptions of the proofs below)", asserted,
            key="asserts")
@@ -303,7 +357,7 @@ def rules(chk: Check) -> None:
                ex.sym("self.tailLengthInside"): tin, ex.sym("self.tailLengthOutside"): tout}
     aIn, aOut = envu.get("self.aIn"), envu.get("self.aOut")
     if not isinstance(aIn, sp.Basic) or not isinstance(aOut, sp.Basic):
-        raise AnchorMissing("_updateParameters does not assign aIn / aOut")
+        raise AnchorMissing("the constructor of Grid3Scales does not assign aIn / aOut")
     sub_par[ex.sym("self.aIn")] = aIn
     sub_par[ex.sym("self.aOut")] = aOut
     slope = j3[0].subs(ex.sym("zCompact"), 0).subs(sub_par, simultaneous=True)
@@ -383,7 +437,8 @@ def rules(chk: Check) -> None:
     # ---------------- R17.6 -------------------------------------------------
     for g, ctor_cls in (("grid:Grid", "grid:Grid"), ("grid3Scales:Grid3Scales", "grid3Scales:Grid3Scales")):
         ci = S.cls(g)
-        exc = Extractor(S, inline=lambda n: n.split(":")[0] in ("grid", "grid3Scales") and not n.endswith("_cacheCoordinates"))
+        nocache = _cache_method(S, g).name       # the re-caching method only fills the cache: not part of the parameters compared here
+        exc = Extractor(S, inline=lambda n: n.split(":")[0] in ("grid", "grid3Scales") and n != nocache)
         init = S.method(g, "__init__")
         cpaths = [p for p in exc.paths(init) if p.raised is None]
         if not cpaths:
@@ -394,7 +449,7 @@ def rules(chk: Check) -> None:
             if not name.startswith("change"):
                 continue
             chk.touch(fi.name)
-            exr = Extractor(S, inline=lambda n: n.split(":")[0] in ("grid", "grid3Scales") and not n.endswith("_cacheCoordinates"))
+            exr = Extractor(S, inline=lambda n: n.split(":")[0] in ("grid", "grid3Scales") and n != nocache)
             rp = [p for p in exr.paths(fi) if p.raised is None]
             if not rp:
                 raise Undecided(f"{fi.name}: no normal path")
@@ -444,23 +499,45 @@ def rules(chk: Check) -> None:
         if fcomp is None:
             continue
         chk.touch(fcomp.name)
-        roots = [c_ for c_ in own_nodes(fcomp.node) if isinstance(c_, ast.Call) and (dotted(c_.func) or "").split(".")[-1] in ("brentq", "root_scalar", "bisect", "newton")]
-        okr = False
+        roots = [c_ for c_ in own_nodes(fcomp.node) if isinstance(c_, ast.Call)
+                 and (dotted(c_.func) or "").split(".")[-1] in ("brentq", "brenth", "ridder", "toms748", "root_scalar", "bisect", "newton")]
+        okr = bool(roots)
+        shown = []
         for r_ in roots:
-            fn_ = r_.args[0] if r_.args else None
+            # the root function, evaluated as a closure on a fresh symbol: a term of the form  self.decompactify(chi, ., .)[0] - target
+            fn_ = kwarg(r_, "f", 0)
+            node_ = None
             if isinstance(fn_, ast.Lambda):
-                calls_ = [c_ for c_ in ast.walk(fn_.body) if isinstance(c_, ast.Call) and dotted(c_.func) == "self.decompactify"]
-                subs_ = [x_ for x_ in ast.walk(fn_.body) if isinstance(x_, ast.Subscript) and isinstance(x_.value, ast.Call) and dotted(x_.value.func) == "self.decompactify"
-                         and isinstance(x_.slice, ast.Constant) and x_.slice.value == 0]
-                lam_arg = fn_.args.args[0].arg if fn_.args.args else None
-                okr = bool(calls_) and bool(subs_) and isinstance(calls_[0].args[0], ast.Name) and calls_[0].args[0].id == lam_arg \
-                    and isinstance(fn_.body, ast.BinOp) and isinstance(fn_.body.op, ast.Sub)
+                node_ = fn_
+            elif isinstance(fn_, ast.Name):
+                nested = S.modules[fcomp.module].funcs.get(f"{fcomp.qual}.{fn_.id}")
+                # a nested def, or the one lambda bound to that name (possibly inside the loop over the points)
+                bound_ = [st_.value for st_ in own_nodes(fcomp.node) if isinstance(st_, ast.Assign) and any(isinstance(t_, ast.Name) and t_.id == fn_.id for t_ in st_.targets)]
+                node_ = nested.node if nested is not None else (bound_[0] if len(bound_) == 1 else None)
+                node_ = node_ if isinstance(node_, (ast.Lambda, ast.FunctionDef)) else None
+            one = False
+            if node_ is not None and len(node_.args.args) >= 1:
+                exf = Extractor(S)
+                chi_ = sp.Symbol("chi__", real=True)
+                try:
+                    val_ = exf.apply(Closure(node_, {"__module__": fcomp.module, "__class__": fcomp.cls}, None, fcomp.cls), [chi_], {}, 0)
+                except Undecided as e_:
+                    val_ = None
+                    shown.append(str(e_))
+                if isinstance(val_, sp.Basic):
+                    shown.append(str(val_))
+                    apps = [a_ for a_ in val_.atoms(sp.Function) if isinstance(a_, sp.core.function.AppliedUndef) and a_.func.__name__ == "decompactify"]
+                    if len(apps) == 1 and len(apps[0].args) == 3 and apps[0].args[0] == chi_:
+                        rest_ = sp.expand(val_ - sp.Function("getitem")(apps[0], sp.Integer(0)))
+                        one = not rest_.has(chi_) and not rest_.has(apps[0]) and rest_ != 0
+            okr = okr and one
         chk.ob("R17.7", fcomp.where(), f"{ci.name}.compactify solves self.decompactify(chi, ., .)[0] == z for chi (it inverts the class's own position map)",
-               okr, key=f"inverse-of-own-map|{ci.name}")
+               okr, "; ".join(shown)[:300], key=f"inverse-of-own-map|{ci.name}")
         sup = [c_ for c_ in own_nodes(fcomp.node) if isinstance(c_, ast.Call) and isinstance(c_.func, ast.Attribute) and c_.func.attr == "compactify"
                and isinstance(c_.func.value, ast.Call) and dotted(c_.func.value.func) == "super"]
         rets = [r_ for r_ in own_nodes(fcomp.node) if isinstance(r_, ast.Return)]
-        oks = len(sup) == 1 and len(rets) == 1 and isinstance(rets[0].value, ast.Tuple) and len(rets[0].value.elts) == 3
+        retv = [Ctx(S, fcomp).resolve(r_.value) if r_.value is not None else None for r_ in rets]
+        oks = len(sup) == 1 and len(rets) == 1 and isinstance(retv[0], ast.Tuple) and len(retv[0].elts) == 3
         chk.ob("R17.7", fcomp.where(), f"{ci.name}.compactify delegates the momentum directions to Grid.compactify and returns three components", oks,
                key=f"momentum-delegated|{ci.name}")
         d3_, _, _, _ = maps[g]
@@ -483,31 +560,60 @@ def rules(chk: Check) -> None:
     chk.floor("R17.7", 4)
 
 
-def _asserts_tail_bounds(fu) -> bool:
-    txt = [" ".join(src(n.test).split()) for n in own_nodes(fu.node) if isinstance(n, ast.Assert)]
-    ex = Extractor.__new__(Extractor)
-    need = {"wallThickness > 0": False, "smoothing > 0": False, "tin": False, "tout": False, "ratio": False}
-    for n in own_nodes(fu.node):
-        if not isinstance(n, ast.Assert):
-            continue
-        t = n.test
-        s = " ".join(src(t).split())
-        if s == "wallThickness > 0":
-            need["wallThickness > 0"] = True
-        if s == "smoothing > 0":
-            need["smoothing > 0"] = True
-        if s == "0 < ratioPointsWall < 1":
-            need["ratio"] = True
-        if isinstance(t, ast.Compare) and len(t.ops) == 1 and isinstance(t.ops[0], ast.Gt) and isinstance(t.left, ast.Name):
+class _StarEx(Extractor):
+    """terms.Extractor that splices `*t` arguments when t evaluates to a tuple / list (f(*(a, b)) is f(a, b))"""
+
+    def call(self, n, env, depth):
+        if any(isinstance(a, ast.Starred) for a in n.args):
+            env2, args2 = dict(env), []
+            for i, a in enumerate(n.args):
+                v = self.expr(a.value, env, depth) if isinstance(a, ast.Starred) else None
+                if isinstance(v, (tuple, list)):
+                    for k, x in enumerate(v):
+                        env2[f"star{i}_{k}__"] = x
+                        args2.append(ast.Name(id=f"star{i}_{k}__", ctx=ast.Load()))
+                else:
+                    args2.append(a)
+            n = ast.copy_location(ast.Call(func=n.func, args=args2, keywords=n.keywords), n)
+            env = env2
+        return super().call(n, env, depth)
+
+
+class _AssertEx(Extractor):
+    """terms.Extractor that also records the terms of the assert statements it passes (with helpers inlined, in the caller's symbols)"""
+
+    def __init__(self, *a, **kw):
+        super().__init__(*a, **kw)
+        self.asserted: list = []
+
+    def stmt(self, st, env, guards, depth):
+        if isinstance(st, ast.Assert):
             try:
-                L, r, sm = sp.symbols("wallThickness ratioPointsWall smoothing", positive=True)
-                rhs = eval(compile(ast.Expression(t.comparators[0]), "x", "eval"),
-                           {"wallThickness": L, "ratioPointsWall": r, "smoothing": sm})
-                if sp.simplify(rhs - L * (sp.Rational(1, 2) + sm) / r) == 0:
-                    if t.left.id == "tailLengthInside":
-                        need["tin"] = True
-                    if t.left.id == "tailLengthOutside":
-                        need["tout"] = True
-            except Exception:
+                t = self.expr(st.test, env, depth)
+                if isinstance(t, sp.Basic):
+                    self.asserted.append(t)
+            except Undecided:
                 pass
-    return all(need.values())
+        return super().stmt(st, env, guards, depth)
+
+
+def _strict(t) -> list:
+    """[(big, small)] of the strict inequalities big > small asserted by the term t (conjunctions / chains flattened)"""
+    name = getattr(getattr(t, "func", None), "__name__", "")
+    if name == "AND":
+        return [q for a in t.args for q in _strict(a)]
+    if name == "GT" and len(t.args) == 2:
+        return [(t.args[0], t.args[1])]
+    if name == "LT" and len(t.args) == 2:
+        return [(t.args[1], t.args[0])]
+    return []
+
+
+def _asserts_tail_bounds(asserted: list, L, r, sm, tin, tout) -> bool:
+    rel = [q for t in asserted for q in _strict(t)]
+    bound = L * (sp.Rational(1, 2) + sm) / r
+    need = {"wallThickness > 0": L, "smoothing > 0": sm, "tin": tin - bound, "tout": tout - bound, "ratio > 0": r, "ratio < 1": 1 - r}
+
+    def has(diff) -> bool:
+        return any(sp.simplify((big - small) - diff) == 0 for big, small in rel)
+    return all(has(v) for v in need.values())
